@@ -107,6 +107,167 @@ let rec p_node ctoks (nd : node) =
   (match e with Some t -> Buffer.add_string b " /"; p_tok ctoks t | None -> ());
   Buffer.add_string b ">"
 
+(* ---------- values ---------- *)
+let rec z_of_int (i : int) : z = if i = 0 then Z0 else if i > 0 then Zpos (pos_of_int i) else Zneg (pos_of_int (- i))
+(* decimal string -> Z without overflow (uint64 / float bit patterns exceed OCaml's int) *)
+let z_of_string (s : string) : z =
+  let neg = String.length s > 0 && s.[0] = '-' in
+  let ten = z_of_int 10 in
+  let acc = ref Z0 in
+  String.iteri (fun i c -> if not (i = 0 && neg) then acc := Z.add (Z.mul !acc ten) (z_of_int (Char.code c - 48))) s;
+  if neg then Z.opp !acc else !acc
+let rec string_of_pos (p : positive) : string =
+  (* decimal via repeated division on Z *)
+  let ten = z_of_int 10 in
+  let rec go (z : z) (acc : string) =
+    match z with
+    | Z0 -> if acc = "" then "0" else acc
+    | _ -> let q = Z.div z ten and r = Z.modulo z ten in
+           let d = (match r with Z0 -> 0 | Zpos p -> int_of_pos p | Zneg _ -> 0) in
+           go q (String.make 1 (Char.chr (48 + d)) ^ acc) in
+  go (Zpos p) ""
+let string_of_z = function Z0 -> "0" | Zpos p -> string_of_pos p | Zneg p -> "-" ^ string_of_pos p
+
+let ikinds = [| KInt; KInt8; KInt16; KInt32; KInt64; KUint; KUint8; KUint16; KUint32; KUint64 |]
+let ikind_idx k = let r = ref 0 in Array.iteri (fun i x -> if x = k then r := i) ikinds; !r
+
+let runes_of_dots (s : string) : n list =
+  if s = "" then [] else List.map (fun x -> n_of_int (int_of_string x)) (String.split_on_char '.' s)
+
+(* recursive-descent parser for the value encoding of harness/values.go *)
+let parse_value (s : string) : value =
+  let pos = ref 0 in
+  let len = String.length s in
+  let peek () = if !pos < len then s.[!pos] else '\000' in
+  let next () = let c = peek () in incr pos; c in
+  let until (stops : char list) : string =
+    let st = !pos in
+    while !pos < len && not (List.mem s.[!pos] stops) do incr pos done;
+    String.sub s st (!pos - st) in
+  let expect c = if next () <> c then failwith ("value syntax at " ^ string_of_int !pos ^ " in " ^ s) in
+  let rec value () : value =
+    match next () with
+    | 'n' -> VNil
+    | 't' -> VBool true
+    | 'f' -> VBool false
+    | 'i' -> let k = int_of_string (until [':']) in expect ':';
+             let d = until [';'; ')'; ']'; '='; ','] in VInt (ikinds.(k), z_of_string d)
+    | 'd' -> let f32 = until [':'] = "1" in expect ':';
+             let d = until [';'; ')'; ']'] in VFloat (f32, z_of_string d)
+    | 's' -> VStr (runes_of_dots (until [';'; ')'; ']']))
+    | 'L' -> let arr = next () = '1' in expect '(';
+             let l = list ')' in expect '['; let ex = list ']' in VSeq (arr, l, ex)
+    | 'M' -> expect '(';
+             let rec ents acc =
+               if peek () = ')' then (incr pos; List.rev acc)
+               else begin
+                 let k = runes_of_dots (until ['=']) in expect '=';
+                 let v = value () in
+                 if peek () = ';' then incr pos;
+                 ents ((k, v) :: acc)
+               end in
+             VMap (ents [])
+    | 'T' -> let ty = int_of_string (until ['(']) in expect '(';
+             let rec flds acc =
+               if peek () = ')' then (incr pos; List.rev acc)
+               else begin
+                 let k = runes_of_dots (until [',']) in expect ',';
+                 let ex = next () = '1' in expect '=';
+                 let v = value () in
+                 if peek () = ';' then incr pos;
+                 flds ((k, (ex, v)) :: acc)
+               end in
+             VStruct (n_of_int ty, flds [])
+    | 'P' -> let addr = int_of_string (until [',']) in expect ',';
+             let ty = int_of_string (until ['(']) in expect '(';
+             if peek () = ')' then (incr pos; VPtr (n_of_int addr, n_of_int ty, None))
+             else begin let v = value () in expect ')'; VPtr (n_of_int addr, n_of_int ty, Some v) end
+    | 'F' -> let id = int_of_string (until ['(']) in expect '('; let b = list ')' in VFunc (n_of_int id, b)
+    | 'O' -> let id = int_of_string (until [';'; ')'; ']']) in VOpaque (n_of_int id)
+    | c -> failwith (Printf.sprintf "value syntax: %c at %d in %s" c !pos s)
+  and list (close : char) : value list =
+    let rec go acc =
+      if peek () = close then (incr pos; List.rev acc)
+      else begin
+        let v = value () in
+        if peek () = ';' then incr pos;
+        go (v :: acc)
+      end in
+    go [] in
+  value ()
+
+let dots (s : n list) = String.concat "." (List.map (fun r -> string_of_int (int_of_n r)) s)
+let nan_mask_exp = z_of_string "9218868437227405312"   (* 0x7FF0000000000000 *)
+let canon_float (bits : z) : z =
+  (* any NaN -> 0x7FF8000000000000 *)
+  let sign_cleared = Z.modulo bits (z_of_string "9223372036854775808") in
+  if Z.ltb nan_mask_exp sign_cleared then z_of_string "9221120237041090560" else bits
+let rec enc_value (v : value) : string =
+  match v with
+  | VNil -> "n" | VBool true -> "t" | VBool false -> "f"
+  | VInt (k, zz) -> Printf.sprintf "i%d:%s" (ikind_idx k) (string_of_z zz)
+  | VFloat (f32, bits) -> Printf.sprintf "d%d:%s" (if f32 then 1 else 0) (string_of_z (canon_float bits))
+  | VStr s -> "s" ^ dots s
+  | VSeq (arr, l, ex) -> Printf.sprintf "L%d(%s)[%s]" (if arr then 1 else 0) (String.concat ";" (List.map enc_value l)) (String.concat ";" (List.map enc_value ex))
+  | VMap m -> "M(" ^ String.concat ";" (List.map (fun (k, v) -> dots k ^ "=" ^ enc_value v) m) ^ ")"
+  | VStruct (ty, fs) -> Printf.sprintf "T%d(%s)" (int_of_n ty) (String.concat ";" (List.map (fun (k, (ex, v)) -> Printf.sprintf "%s,%d=%s" (dots k) (if ex then 1 else 0) (if ex then enc_value v else "n")) fs))
+  | VPtr (a, ty, None) -> Printf.sprintf "P0,%d()" (int_of_n ty)
+  | VPtr (a, ty, Some v) -> Printf.sprintf "P%d,%d(%s)" (int_of_n a) (int_of_n ty) (enc_value v)
+  | VFunc (_, _) -> "F"
+  | VOpaque i -> Printf.sprintf "O%d" (int_of_n i)
+
+(* method tables "ty,ptr:name=fid;...|..." *)
+let parse_methods (s : string) : (int * bool, (n list * n) list) Hashtbl.t =
+  let h = Hashtbl.create 8 in
+  List.iter (fun ent ->
+    match String.split_on_char ':' ent with
+    | [hd; ms] ->
+      (match String.split_on_char ',' hd with
+       | [ty; p] ->
+         let l = List.filter_map (fun m -> match String.split_on_char '=' m with
+             | [nm; fid] -> Some (runes_of_dots nm, n_of_int (int_of_string fid)) | _ -> None) (split ';' ms) in
+         Hashtbl.replace h (int_of_string ty, p = "1") l
+       | _ -> ())
+    | _ -> ()) (split '|' s);
+  h
+
+(* the fixed user-function table of harness/values.go *)
+let str_of_ascii (s : string) : n list = List.init (String.length s) (fun i -> n_of_int (Char.code s.[i]))
+let field_of (v : value) (name : string) : value option =
+  let target = match v with VPtr (_, _, Some t) -> Some t | VPtr (_, _, None) -> None | x -> Some x in
+  match target with
+  | Some (VStruct (_, fs)) -> (match List.assoc_opt (str_of_ascii name) fs with Some (_, x) -> Some x | None -> None)
+  | _ -> None
+let is_i64 = function VInt (KInt64, _) -> true | _ -> false
+let call_fn (id : n) (args : value list) : fres =
+  match int_of_n id, args with
+  | 1, [] -> FOk (VInt (KInt64, z_of_int 1))
+  | 2, [a] -> FOk a
+  | 3, [] -> FErrS (n_of_int 1)
+  | 4, [] -> FPanic
+  | 5, [VInt (KInt64, a); VInt (KInt64, b)] -> FOk (VInt (KInt64, wrap64 (Z.add a b)))
+  | 6, xs when List.for_all (function VStr _ -> true | _ -> false) xs ->
+    FOk (VStr (List.concat (List.map (function VStr s -> s | _ -> []) xs)))
+  | 7, [VInt (KInt64, k)] -> FOk (VInt (KInt64, k))
+  | 8, [VInt (KInt64, _); VBool bb] -> FOk (VBool bb)
+  | 9, [VInt (KInt64, _); VStr s] -> FOk (VStr s)
+  | 10, [] -> FBadSecond
+  | 11, [] -> FBadCount
+  | 12, [VBool bb] -> if bb then FErrS (n_of_int 2) else FOk (VStr (str_of_ascii "ok"))
+  | 20, [recv] -> (match field_of recv "X" with Some x -> FOk x | None -> FPanic)
+  | 21, [_] -> FOk (VStr (str_of_ascii "hello"))
+  | 22, [_] -> FOk (VStr (str_of_ascii "ptrm"))
+  | 23, [_; VStr s] -> FOk (VStr (s @ s))
+  | _, _ -> FPanic      (* reflect: wrong argument count or type *)
+
+let cause_s = function CNoSuchValue -> "nosuch" | CUser k -> "user" ^ string_of_int (int_of_n k) | COther -> "err"
+let log_s (lg : (n * value list) list) : string =
+  String.concat "," (List.filter_map (fun (id, args) ->
+    let i = int_of_n id in
+    if i >= 7 && i <= 9 then
+      (match args with VInt (_, k) :: _ -> Some (Printf.sprintf "%d:%s" i (string_of_z k)) | _ -> Some (Printf.sprintf "%d:?" i))
+    else None) (List.rev lg))
+
 let run_case (line : string) =
   Buffer.clear b;
   (match split ' ' line with
@@ -126,6 +287,18 @@ let run_case (line : string) =
      (match load is_space to_lower tags voids prefix parse_ok src with
       | Inl nd -> Buffer.add_string b "OK "; p_node ctoks nd
       | Inr e -> Buffer.add_string b ("ERR " ^ serr_s e))
+   | ["eval"; meth; env; src] ->
+     let mt = parse_methods meth in
+     let methods (ty : n) (ptr : bool) = match Hashtbl.find_opt mt (int_of_n ty, ptr) with Some l -> l | None -> [] in
+     let sc = SData (parse_value env) in
+     (match parse_code is_letter is_udigit (str_of_field src) with
+      | None -> add "ERR parse"
+      | Some _ ->
+        let (r, lg) = eval_text is_letter is_udigit methods call_fn sc (str_of_field src) [] in
+        (match r with
+         | Ok v -> add ("OK " ^ enc_value v ^ " LOG " ^ log_s lg)
+         | Err c -> add ("ERR " ^ cause_s c ^ " LOG " ^ log_s lg)
+         | Unmodelled -> add "UNMODELLED"))
    | ["parse"; src] ->
      (match parse_code is_letter is_udigit (str_of_field src) with
       | Some e -> add "OK "; p_expr e
